@@ -35,9 +35,16 @@ static pthread_mutex_t hm = PTHREAD_MUTEX_INITIALIZER;
 static pthread_cond_t hc = PTHREAD_COND_INITIALIZER;
 static int ran_flag;
 
+static int reentrant_mode; /* 0 none; 1: task 0, when RUN, schedules task 1 now; 2: task 0, when RUN, cancels task 2 */
+static int reentrant_done;
 static void task_fn(struct aws_task *t, void *arg, enum aws_task_status status) {
     int i = (int)(intptr_t)arg;
     (void)t;
+    if (i == 0 && status == AWS_TASK_STATUS_RUN_READY && reentrant_mode && !reentrant_done) {
+        reentrant_done = 1;
+        if (reentrant_mode == 1) aws_thread_scheduler_schedule_now(ts, &task[1]);
+        if (reentrant_mode == 2) aws_thread_scheduler_cancel_task(ts, &task[2]);
+    }
     struct tlog *l = &tl[i];
     if (l->n < 4) {
         l->status[l->n] = (int)status;
@@ -60,6 +67,7 @@ static void setup(void) {
     A = galloc_get(0, 0);
     memset(tl, 0, sizeof(tl));
     after_release = invoked_after_release = ran_flag = 0;
+    reentrant_mode = reentrant_done = 0;
     ts = aws_thread_scheduler_new(A, NULL);
     if (!ts) vs_harness_error("aws_thread_scheduler_new failed");
     for (int i = 0; i < NT; ++i) {
@@ -225,6 +233,35 @@ static void s7(void) {
     finish(h, cc);
 }
 
+/* S8: task 0 (run now) schedules task 1 from inside its own run, i.e. from the scheduler thread; main waits for task 0,
+ * then releases: task 1 was handed over iff the re-entrant call happened, and then must be invoked exactly once */
+static void s8(void) {
+    setup();
+    reentrant_mode = 1;
+    aws_thread_scheduler_schedule_now(ts, &task[0]);
+    pthread_mutex_lock(&hm);
+    while (!ran_flag) pthread_cond_wait(&hc, &hm);
+    pthread_mutex_unlock(&hm);
+    int h[NT] = {1, reentrant_done, 0}, c[NT] = {0, 0, 0};
+    finish(h, c);
+}
+/* S9: task 2 is scheduled far in the future; task 0 (run now) cancels it from the scheduler thread; main releases at once:
+ * whether or not task 0 ran, task 2 must be invoked exactly once with CANCELED (cancelled, or pending at release) */
+static void s9(void) {
+    setup();
+    reentrant_mode = 2;
+    uint64_t now = 0;
+    aws_high_res_clock_get_ticks(&now);
+    task_time[2] = now + 3600ull * 1000000000ull;
+    aws_thread_scheduler_schedule_future(ts, &task[2], task_time[2]);
+    aws_thread_scheduler_schedule_now(ts, &task[0]);
+    int h[NT] = {1, 0, 1}, c[NT] = {0, 0, 0};
+    finish(h, c);
+    /* RUN is legitimate only when the (virtual) clock really reached the task's time - the "timer lands first" deviation
+     * can do that; check_task() already demands when >= time for every RUN */
+    VS_CHECK(tl[2].n == 1, "far-future-task-not-invoked-once", "far-future task: %d invocations", tl[2].n);
+}
+
 static uint64_t user_digest(void) {
     uint64_t h = 1469598103934665603ull;
     for (int i = 0; i < NT; ++i) {
@@ -245,6 +282,8 @@ int main(int argc, char **argv) {
         {.name = "S4-future-cancel-release", .run = s4, .bound_quick = 3, .bound_thorough = 5, .digest = user_digest},
         {.name = "S5-two-clients", .run = s5, .bound_quick = 2, .bound_thorough = 3, .digest = user_digest},
         {.name = "S6-timed-run", .run = s6, .bound_quick = 3, .bound_thorough = 4, .digest = user_digest},
+        {.name = "S8-task-schedules-task", .run = s8, .bound_quick = 2, .bound_thorough = 3, .digest = user_digest},
+        {.name = "S9-task-cancels-task", .run = s9, .bound_quick = 2, .bound_thorough = 3, .digest = user_digest},
         {.name = "S7-three-clients", .run = s7, .bound_quick = -1, .bound_thorough = 1, .digest = user_digest},
     };
     return vsx_main(sc, (int)(sizeof(sc) / sizeof(sc[0])));
